@@ -125,8 +125,17 @@ def case_from_point(p, rng, consts):
     return c
 
 
+def _ofm_bits(c, rng):
+    """IFM and OFM precision are independent registers (IFM_PRECISION / OFM_PRECISION): every (IFM, OFM) pair of
+    8/16/32-bit feature maps is realised, half of the operations keep equal precision"""
+    if rng.random() < 0.5:
+        return c["bits"]
+    return rng.choice([b for b in (8, 16, 32) if b != c["bits"]])
+
+
 def _fill_sub(c, rng):
     k = c["kind"]
+    c["obits"] = _ofm_bits(c, rng)
     if k == "pool":
         c["sub"] = rng.choice(["MAX", "AVERAGE"])
         if c["scaled"] == 0 and c["sub"] == "AVERAGE":
@@ -183,8 +192,9 @@ def random_case(rng):
 
 
 def case_id(c):
-    return "%s|%s%s|b%d|q%d|lut%d|pk%d|k%s|up%d|ifmd%d|sc%d|bc%s|ofm%s" % (
-        c["accel"], c["kind"], ("." + c["sub"]) if c["sub"] else "", c["bits"], c["scaled"], int(c["lut"]), int(c["part"]),
+    return "%s|%s%s|b%d>%d|q%d|lut%d|pk%d|k%s|up%d|ifmd%d|sc%d|bc%s|ofm%s" % (
+        c["accel"], c["kind"], ("." + c["sub"]) if c["sub"] else "", c["bits"], c.get("obits", c["bits"]), c["scaled"], int(c["lut"]),
+        int(c["part"]),
         "x".join(map(str, c["k"])), c["up"], c["ifm_d"], int(c["scalar"]), "".join(str(int(b)) for b in c["bc"]),
         "x".join(map(str, c["ofm"])))
 
@@ -234,12 +244,13 @@ def shapes(c):
 
 def build_op(c):
     A = _api()["api"]
-    dt = {8: A.NpuDataType.INT8, 16: A.NpuDataType.INT16, 32: A.NpuDataType.INT32}[c["bits"]]
+    dts = {8: A.NpuDataType.INT8, 16: A.NpuDataType.INT16, 32: A.NpuDataType.INT32}
+    dt, odt = dts[c["bits"]], dts[c.get("obits", c["bits"])]
     quant = {1: A.NpuQuantization(scale_f32=0.0625, zero_point=0), 0: None, 2: A.NpuQuantization(scale_f32=None, zero_point=0)}[c["scaled"]]
 
-    def fm(shape, region):
+    def fm(shape, region, dtype=None):
         f = A.NpuFeatureMap()
-        f.data_type = dt
+        f.data_type = dtype or dt
         f.shape = A.NpuShape3D(height=shape[0], width=shape[1], depth=shape[2])
         f.tiles = A.NpuTileBox(height_0=shape[0], height_1=shape[0], width_0=shape[1], addresses=[0, 0, 0, 0])
         f.region = region
@@ -258,7 +269,7 @@ def build_op(c):
     else:
         op = A.NpuElementWiseOperation(getattr(A.NpuElementWiseOp, c["sub"]))
     op.ifm = fm(ifm, 1)
-    op.ofm = fm(ofm, 3)
+    op.ofm = fm(ofm, 3, odt)
     if ifm2 is not None:
         op.ifm2 = fm(ifm2, 2)
         if c["scalar"]:
@@ -449,18 +460,81 @@ def corpus_extract(nng, arch, res):
     return {"accel": arch.accelerator_config.value}
 
 
-def corpus_events(n, sd):
+BCAST_PATTERNS = ([True, True, True], [True, True, False], [True, False, True], [False, True, True], [True, False, False],
+                  [False, True, False], [False, False, True])        # which of (H, W, C) of the second operand are 1
+
+
+def ewbcast_entries(sd, per_pattern):
+    """Binary elementwise networks whose second operand is a RUN-TIME (non-constant) feature map that is broadcast in every
+    combination of dimensions - [1,1,1,1], [1,1,1,C], [1,1,W,1], ... - over small and large feature maps (up to 64x64x64),
+    either operand order, for all six accelerators.  The scheduler selects the block configuration, the generator emits it."""
+    from .. import corpus, netgen
+    rng = random.Random(sd * 7919 + 15)
+    out = []
+    for a in ACCELS:
+        for bc in BCAST_PATTERNS:
+            n = per_pattern + (2 if all(bc) else 0)       # a one-element operand is one step away from a scalar: more sizes
+            for j in range(n):
+                large = j % 2 == 0
+                if large:
+                    hwc = [rng.choice([16, 24, 32, 48, 64]), rng.choice([16, 32, 40, 48, 64]), rng.choice([16, 24, 32, 64])]
+                else:
+                    hwc = [rng.choice([2, 3, 4, 8, 12]), rng.choice([2, 4, 5, 8, 16]), rng.choice([2, 4, 8, 16, 20])]
+                dt = rng.choice(["INT8", "INT8", "INT8", "INT16"])
+                kind = rng.choice(["ADD", "SUB", "MUL", "MINIMUM", "MAXIMUM"]) if dt == "INT8" else rng.choice(["ADD", "MUL"])
+                net = netgen.Net(rng.randrange(1 << 16))
+                zp = 0 if dt == "INT16" else 3
+                x = net.fm("x", [1] + hwc, dt, 0.05 if dt == "INT8" else 0.001, zp, is_input=True)
+                y = net.fm("y", [1] + [1 if b else d for b, d in zip(bc, hwc)], dt, 0.05 if dt == "INT8" else 0.001, zp, is_input=True)
+                swap = rng.random() < 0.3
+                o = net.eltwise(kind, y, x) if swap else net.eltwise(kind, x, y)
+                if dt == "INT16":
+                    net.t[o]["zp"] = [0]
+                out.append({"family": "ewbcast:%s" % kind, "net": net.desc([o]), "opts": corpus.config_point(rng, a),
+                            "ew": {"accel": a, "kind": kind, "bits": 8 if dt == "INT8" else 16, "bc": list(bc), "hwc": hwc, "swap": swap}})
+    return out
+
+
+_RE_NOFIT = re.compile(r"block_config NpuShape3D\(height=(\d+), width=(\d+), depth=(\d+)\) does not fit")
+
+
+def rejected_selection(e, r):
+    """a compilation that died in the generator's get_arch_block_config: the block the scheduler selected is not usable"""
+    exc = r.get("exc") or ""
+    m = _RE_NOFIT.search(exc)
+    if r.get("rc") == 0 or not m or "get_arch_block_config" not in exc:
+        return None
+    ew = e.get("ew") or {}
+    blk = [int(m.group(1)), int(m.group(2)), int(m.group(3))]
+    return dict(src="sel", accel=e["opts"]["accel"], kind="ew" if ew else "conv", scalar=False, binary=bool(ew), bc=ew.get("bc", [False] * 3),
+                bits=ew.get("bits", 8), accbits=32, scaled=-1, lut=False, part=False, kah=1, kaw=1, sy=1, sx=1, up=0,
+                ifm_d=ew.get("hwc", [1, 1, 8])[2], ofm_h=ew.get("hwc", [8])[0], blk=blk, rblk=blk, accepted=False, lay=[-1] * 5,
+                why=m.group(0) + " (compiler died in get_arch_block_config)",
+                case={"family": e["family"], "opts": e["opts"], "net": e["net"], "ew": ew})
+
+
+def corpus_events(n, sd, per_pattern=1):
     from .. import artefact, corpus, vela_run
     ents = corpus.all_singles(sd) if n >= 60 else corpus.all_singles(sd)[:n]
     if n > len(ents):
         ents = ents + corpus.draw(n - len(ents), sd + 15)
+    ents = ents + ewbcast_entries(sd, per_pattern)
     jobs = [{"id": i, "net": e["net"], "opts": e["opts"]} for i, e in enumerate(ents)]
     results = vela_run.compile_many(jobs, corpus_extract, timeout=600)
-    events, compiled = [], 0
+    events, compiled, fams = [], 0, {}
     for e, r in zip(ents, results):
+        fam = e["family"].split(":")[0]
+        st = fams.setdefault(fam, {"networks": 0, "compiled": 0, "rejected_selection": 0})
+        st["networks"] += 1
+        rej = rejected_selection(e, r)
+        if rej is not None:
+            st["rejected_selection"] += 1
+            events.append(rej)
+            continue
         if r.get("rc") != 0 or "out_bytes" not in r or "extract" not in r:
             continue
         compiled += 1
+        st["compiled"] += 1
         accel = r["extract"]["accel"]
         model = artefact.parse_model(r["out_bytes"])
         for k, eo in enumerate(artefact.ethosu_ops(model)):
@@ -472,7 +546,7 @@ def corpus_events(n, sd):
                 rec.update(src="corpus", blk=rec["rblk"], accepted=True, scaled=-1,
                            case={"family": e["family"], "opts": e["opts"], "net": e["net"], "op_index": o["index"], "custom_op": k})
                 events.append(rec)
-    return events, compiled, len(jobs)
+    return events, compiled, len(jobs), fams
 
 
 # =============================================================================== validation
@@ -509,9 +583,11 @@ QUANT = {1: "scaled", 0: "none", 2: "scale_none"}
 def group_key(name, e):
     """stable identity of a class of failing cases: requirement, source, accelerator, operation class; the
     representative reported for the class is its smallest member"""
-    q = QUANT.get(e["case"].get("scaled"), "na") if isinstance(e.get("case"), dict) else "na"
-    return "%s|%s|%s|%s|bits=%d|acc=%s|lut=%d|up=%d|quant=%s" % (
-        name, e["src"], e["accel"], e["kind"], e["bits"], e["accbits"] if e["accepted"] else "na", int(e["lut"]), e["up"], q)
+    cs = e.get("case") if isinstance(e.get("case"), dict) else {}
+    q = QUANT.get(cs.get("scaled"), "na")
+    return "%s|%s|%s|%s|bits=%d|obits=%s|acc=%s|lut=%d|up=%d|quant=%s" % (
+        name, e["src"], e["accel"], e["kind"], e["bits"], cs.get("obits", "na"), e["accbits"] if e["accepted"] else "na", int(e["lut"]),
+        e["up"], q)
 
 
 def _size(e):
@@ -630,8 +706,11 @@ def main(tier, only=None):
     lap("api_and_allocator")
     for k in ("offered", "query_empty", "sel_rejected", "find_none"):
         run.cov[k] = sum(o["stats"].get(k, 0) for o in obs)
-    cev, compiled, njobs = corpus_events(n_corpus, sd)
-    run.cov["corpus"] = {"networks": njobs, "compiled": compiled, "kernel_operations": len(cev)}
+    cev, compiled, njobs, fams = corpus_events(n_corpus, sd, 1 if tier == "quick" else 4)
+    run.cov["corpus"] = {"networks": njobs, "compiled": compiled, "kernel_operations": len(cev), "families": fams,
+                         "binary_ew_with_runtime_broadcast_operand": sum(1 for e in cev if e["kind"] == "ew" and e["binary"] and any(e["bc"]))}
+    if fams.get("ewbcast", {}).get("compiled", 0) + fams.get("ewbcast", {}).get("rejected_selection", 0) == 0:
+        raise MachineryError("none of the broadcast elementwise networks compiled")
     if compiled == 0 or not cev:
         raise MachineryError("no compiled network produced a kernel operation (%d jobs)" % njobs)
     events += cev
